@@ -1029,7 +1029,11 @@ def rule_sticky_open_flag(db, chk, cfg, rule="FLAG.sticky", flag="has_open_paths
                 continue
             r = canon(kids(x)[1])
             n += 1
-            ok = r == "true" or (r == "false" and f.name in ("Clear", "ClipperBase"))
+            # `flag = flag || X` (either order) can only switch the flag on as well
+            r0 = _u(kids(x)[1])
+            monotone = r0.get("kind") == "BinaryOperator" and r0.get("opcode") == "||" and any(
+                _u(z).get("kind") == "MemberExpr" and _u(z).get("name") == flag for z in kids(r0))
+            ok = r == "true" or monotone or (r == "false" and f.name in ("Clear", "ClipperBase"))
             chk.instance(rule, {"function": f.qual, "write": canon(x)[:50], "cfg": cfg}, ok=ok)
             if not ok:
                 chk.violation(rule, f.qual, "%s|%s" % (flag, r[:30]), "%s: `%s` - the flag means 'an open path has been added since the last Clear()' and may only be "
